@@ -112,7 +112,7 @@ Proof. vm_compute. auto. Qed.
 (* ---- resource indicators (RFC 8707) ---- *)
 
 (* In every state reachable by any history of operations (any configuration, any clients, any
-   interleaving of authorization_code, implicit, CIBA, client_credentials and refresh chains of any
+   interleaving of authorization_code, implicit, CIBA, client_credentials, jwt-bearer and refresh chains of any
    length), the resources the current token of every stored grant is for - the `aud` of a JWT access
    token, the `aud` introspection reports - are among the resources the grant was given. *)
 Theorem resources_within_grant : forall w dyn ops g,
@@ -125,8 +125,9 @@ Print Assumptions resources_within_grant.
    resource is among those the resource owner granted to the session (an empty grant allows nothing),
    the grant written records exactly the session's granted resources and, as the token's resources,
    the requested ones (all granted ones when none is named); a refresh only if the requested
-   resources are among the grant's granted ones, which it leaves untouched; client_credentials (no
-   resource owner) only if they are among the server's configured resources.  With the feature off
+   resources are among the grant's granted ones, which it leaves untouched; client_credentials and
+   jwt-bearer (no resource owner behind the request) only if they are among the server's configured
+   resources.  With the feature off
    the `resource` parameter is ignored and nothing is recorded. *)
 Theorem resources_decision : forall w n now r st,
   (is_tokens (snd (run_seq (code_grant w n now r) st)) = true ->
@@ -157,6 +158,13 @@ Theorem resources_decision : forall w n now r st,
   (is_tokens (snd (run_seq (cc_grant w n now r) st)) = true ->
    exists g,
      st_gsess (fst (run_seq (cc_grant w n now r) st)) = put_gsess g (st_gsess st) /\
+     g_active_res g = g_granted_res g /\
+     (cf_resource_enabled (w_cfg w) = true ->
+        (forall x, In x (t_resources r) -> In x (cf_resources (w_cfg w))) /\ g_granted_res g = t_resources r) /\
+     (cf_resource_enabled (w_cfg w) = false -> g_granted_res g = [])) /\
+  (is_tokens (snd (run_seq (jwt_bearer_grant w n now r) st)) = true ->
+   exists g,
+     st_gsess (fst (run_seq (jwt_bearer_grant w n now r) st)) = put_gsess g (st_gsess st) /\
      g_active_res g = g_granted_res g /\
      (cf_resource_enabled (w_cfg w) = true ->
         (forall x, In x (t_resources r) -> In x (cf_resources (w_cfg w))) /\ g_granted_res g = t_resources r) /\
